@@ -1,4 +1,5 @@
 import Driver.Scenario
+import Driver.PerTestDrv
 open Cgreen.Drv
 
 /-- Read all of stdin as lines. -/
@@ -22,6 +23,11 @@ def main (args : List String) : IO UInt32 := do
       for l in runScenario b do out.putStrLn l
       out.putStrLn "---"
     return 0
+  | ["pertest"] =>
+    for b in blocks lines do
+      for l in Cgreen.Drv.PT.runPerTest b do out.putStrLn l
+      out.putStrLn "---"
+    return 0
   | _ =>
-    IO.eprintln "usage: modeldrv scenario < input"
+    IO.eprintln "usage: modeldrv scenario|pertest < input"
     return 2
